@@ -36,14 +36,27 @@ RULE = ("circuits of 1-5 blocks over 9 block kinds (probe SBlock, probe AddonMai
         "cause, before and after the initialisation is complete; the helper task of wait_init() is looked for among ALL "
         "tasks of the loop (by its coroutine) just before / right after the outside cancellation and at the end; "
         "a storage whose __setitem__ (and pop) raise from the moment the circuit has recorded its error, with every "
-        "cause and circuit shape that has a persistent block; a case is distinct by its (input lines, trace) hash, non-trivial when at least one block was started")
+        "cause and circuit shape that has a persistent block; "
+        "init_async / stop_async coroutines and supporting coroutines of run() whose cancellation needs 1-7 further loop "
+        "iterations or 1-2 ms (listed before and after the coroutine that ends or fails); a SECOND termination cause 2-152 ms "
+        "after the first, i.e. during the clean-up: the task awaiting shutdown() is cancelled, a supporting coroutine that "
+        "itself awaits shutdown() is cancelled by run() because another one returns / fails, abort(), SIGTERM, another shutdown(); "
+        "stop_async ending with a CancelledError of its own; OutputFunc -> OutputFunc on_success chains with stop_data on both "
+        "(both stop orders forced as above); start() faults before AND after super().start() on sync / AddonMainTask / AddonAsync "
+        "probes at every position; main-task blocks with stop_timeout 0; besides the task list taken six loop iterations "
+        "after the end, a snapshot of edzed's tasks and timers at the very moment run() returns / the simulation task finishes; "
+        "a case is distinct by its (input lines, trace) hash, non-trivial when at least one block was started")
 ASSUMPTIONS = [
     "instants of different origin never coincide (durations = 0 mod 10 ms and pairwise distinct, time-outs = 3, "
     "requests = 5, main task failures = 7 mod 10 ms; 0 = the yield after the start loop)",
     "a probe block's own start() is below the add-ons in the MRO (it raises before AddonMainTask.start creates the "
     "main task); a probe's stop()/stop_async() runs the library part (super()) before it raises",
-    "stop_timeout > 0 on main-task blocks and larger than the time the main task needs to finish after its "
-    "cancellation; no second external cancellation of the simulation task (DESIGN.md section 6)",
+    "stop_timeout of a main-task block is 0 (known finding: its task is never cancelled) or larger than the time the main "
+    "task needs to finish after its cancellation; no direct cancellation of the simulation task or of the task that runs "
+    "edzed.run() while the clean-up is in progress (DESIGN.md section 6)",
+    "a slow cancellation of init_async that takes time (not only loop iterations) is generated only where init_async does "
+    "not run into its time-out; in random circuits a stop_async ending with its own CancelledError is the only asynchronous "
+    "clean-up of the circuit; the main task of a block with stop_timeout=0 does not fail; the destination OutputFunc of an OutputFunc's on_success has no on_success of its own",
     "OutputAsync blocks receive only their stop_data (mode 'wait'); C12 covers their running behaviour",
 ]
 EXHAUSTIVE = {'quick': False, 'thorough': False}
@@ -110,6 +123,9 @@ class ProbeMixin:
         if 'S' in _flags(self) and not isinstance(self, PSCore):
             raise Boom(f'{self.name}.start')
         super().start()     # the probes (PSCore) raise in their own start(), below the add-ons
+        if 'L' in _flags(self):
+            # a fault AFTER super().start(): the add-ons have done their part (AddonMainTask: the main task exists)
+            raise Boom(f'{self.name}.start (late)')
         REC.add('started', self)
 
     def stop(self):
@@ -132,8 +148,18 @@ class AsyncProbeMixin:
                     await asyncio.sleep(p['sdur'] / 1000)
                 if 'Q' in p.get('flags', ''):
                     raise Boom(f'{self.name}.stop_async')
+                if 'K' in p.get('flags', ''):
+                    # ends with a CancelledError of its own: a worker is cancelled and awaited
+                    worker = asyncio.create_task(asyncio.sleep(FAR))
+                    await asyncio.sleep(0)
+                    worker.cancel()
+                    await worker
         except asyncio.CancelledError:
-            REC.add('sae', self, 'cancelled')
+            try:
+                for _ in range(p.get('ck', 0)):     # the cancellation takes further loop iterations
+                    await asyncio.sleep(0)
+            finally:
+                REC.add('sae', self, 'cancelled')
             raise
         except Exception:
             REC.add('sae', self, 'err')
@@ -200,7 +226,14 @@ async def _probe_init_async(self):
     try:
         await asyncio.sleep(p['idur'] / 1000)
     except asyncio.CancelledError:
-        REC.initres[k] = (REC.now(), 'cancelled')
+        # the cancellation takes `icd` ms and `ck` further loop iterations (await in a finally clause, inner task)
+        try:
+            if p.get('icd'):
+                await asyncio.sleep(p['icd'] / 1000)
+            for _ in range(p.get('ck', 0)):
+                await asyncio.sleep(0)
+        finally:
+            REC.initres[k] = (REC.now(), 'cancelled')
         raise
     if 'A' in p['flags']:
         REC.initres[k] = (REC.now(), 'err')
@@ -330,12 +363,14 @@ def build(scn, notes):
         elif kind == 'outf':
             def func(value, _i=i, _n=name):
                 REC.log.append(('out', _i, value == 'STOP', REC.now()))
-                return value
+                return f'result of {_n}'        # on_success data: never mistaken for the receiver's stop_data
             kw = {}
             if 't' in flags:
                 kw['stop_data'] = {'value': 'STOP'}
             if b.get('ons') is not None:
-                kw['on_success'] = edzed.Event(names[b['ons']], 'start')
+                # to a timer: 'start'; to another OutputFunc: 'put' (its function is called with the result)
+                kw['on_success'] = edzed.Event(
+                    names[b['ons']], 'put' if blocks[b['ons']]['kind'] == 'outf' else 'start')
             blk = POutF(name, func=func, on_error=None, x_p=p, **kw)
         elif kind == 'outa':
             async def coro(value, _i=i, _d=b.get('sdur', 0)):
@@ -415,11 +450,14 @@ def blk_line(b):
         flags = flags.replace('f', '') + 'srpT'
     if b['kind'] == 'ainit':
         flags += 'a'
+    if 'Q' in flags:
+        flags = flags.replace('K', '')      # the probe's stop_async raises (Q) before it could end with a CancelledError (K)
 
     def opt(v):
         return '-' if v is None else str(v)
     return (f"lifecycle blk {kind} {''.join(sorted(set(flags))) or '-'} {opt(b.get('mf'))} {b.get('idur', 0)} "
-            f"{b.get('ito', 0)} {b.get('cdur', 0)} {b.get('sdur', 0)} {b.get('sto', 1)} {opt(b.get('ons'))}")
+            f"{b.get('ito', 0)} {b.get('cdur', 0)} {b.get('sdur', 0)} {b.get('sto', 1)} {opt(b.get('ons'))} "
+            f"{b.get('icd', 0)}")
 
 
 def is_async_stop(b):
@@ -434,6 +472,7 @@ def run_once(scn, pad=0):
     rec = REC
     notes = {}
     cause = scn['cause']
+    second = cause.get('second')
     runner = scn.get('runner', 'task')
     edzed.reset_circuit()
     if pad:
@@ -529,11 +568,28 @@ def run_once(scn, pad=0):
             if t > 0:
                 await asyncio.sleep(t / 1000)
             kind = cause['kind']
+            sh = None
             if not cause.get('before') and t > 0:
                 if kind == 'shutdown':
-                    helpers.append(asyncio.create_task(circuit.shutdown()))
+                    sh = asyncio.create_task(circuit.shutdown())
+                    helpers.append(sh)
                 else:
                     request(kind)
+            if second and not cause.get('before') and t > 0:
+                await asyncio.sleep(second['dt'] / 1000)
+                notes['second_during_cleanup'] = circuit._simtask is not None and not circuit._simtask.done()
+                if second['kind'] == 'callerCancel':
+                    # the task that awaits shutdown() is cancelled while it waits
+                    if sh is None:
+                        sh = asyncio.create_task(circuit.shutdown())
+                        helpers.append(sh)
+                        await asyncio.sleep(0)
+                    sh.cancel()
+                    sh.add_done_callback(lambda t: t.cancelled() or t.exception())
+                elif second['kind'] == 'shutdown':
+                    helpers.append(asyncio.create_task(circuit.shutdown()))
+                else:
+                    request(second['kind'])
             if cause.get('late'):
                 await asyncio.sleep(0.0005)
                 notes['late_during_cleanup'] = circuit._simtask is not None and not circuit._simtask.done()
@@ -542,6 +598,29 @@ def run_once(scn, pad=0):
                     await circuit.shutdown()
                 except Exception:
                     pass
+
+        async def support2():
+            """a further supporting coroutine of edzed.run(): the SECOND termination cause, during the clean-up"""
+            await asyncio.sleep((cause['time'] + second['dt']) / 1000)
+            notes['second_during_cleanup'] = circuit._simtask is not None and not circuit._simtask.done()
+            k2 = second['kind']
+            if k2 == 'supportEnd':
+                return
+            if k2 == 'supportFail':
+                raise Boom('support2')
+            if k2 == 'shutdown':
+                await circuit.shutdown()
+            else:
+                request(k2)
+            await asyncio.sleep(FAR)
+
+        async def idle(k):
+            """a supporting coroutine that needs k further loop iterations to finish once it is cancelled"""
+            try:
+                await asyncio.sleep(FAR)
+            finally:
+                for _ in range(k):
+                    await asyncio.sleep(0)
 
         async def support():
             """supporting coroutine of edzed.run()"""
@@ -552,7 +631,11 @@ def run_once(scn, pad=0):
                 return
             if kind == 'supportFail':
                 raise Boom('support')
-            if kind == 'shutdown':
+            if kind == 'shutdown' and cause.get('awaited'):
+                # the supporting coroutine itself waits in shutdown(): run() cancels it there when another
+                # supporting coroutine ends during the clean-up
+                await circuit.shutdown()
+            elif kind == 'shutdown':
                 helpers.append(asyncio.create_task(circuit.shutdown()))
             else:
                 request(kind)
@@ -560,11 +643,42 @@ def run_once(scn, pad=0):
                 await asyncio.sleep(0.0005)
                 notes['late_during_cleanup'] = circuit._simtask is not None and not circuit._simtask.done()
                 circuit.abort(Boom('late'))
+            if second and second['kind'] in ('abort', 'sigterm') and not cause.get('awaited'):
+                await asyncio.sleep(second['dt'] / 1000)
+                notes['second_during_cleanup'] = circuit._simtask is not None and not circuit._simtask.done()
+                request(second['kind'])
             await asyncio.sleep(FAR)
+
+        def snapshot():
+            """edzed's tasks and timers that are pending at this very moment"""
+            cur = asyncio.current_task()
+            now = [task_label(t, rec) for t in asyncio.all_tasks() if t is not cur and not t.done()]
+            now = [x for x in now if x.startswith(('init:', 'main:', 'ctrl:', 'stopa:', 'support:'))]
+            now += [lab for lab in (handle_label(h, rec) for h in loop.pending_handles()) if lab.startswith('timer:')]
+            return sorted(now)
+
+        async def sim_wrapper():
+            try:
+                await circuit.run_forever()
+            finally:
+                out['left_now'] = snapshot()    # the moment the simulation task finishes
+
+        async def run_wrapper(*coros):
+            try:
+                await edzed.run(*coros)
+            finally:
+                out['left_now'] = snapshot()    # the moment run() returns / raises
+
+        def support_coros(*mine):
+            sups = scn.get('sups') or []
+            lst = [idle(x['ck']) for x in sups if x['pos'] == 'before'] + list(mine)
+            if second and (second['kind'] in ('supportEnd', 'supportFail', 'shutdown') or cause.get('awaited')):
+                lst.append(support2())
+            return lst + [idle(x['ck']) for x in sups if x['pos'] == 'after']
 
         run_error = None
         if runner == 'task':
-            simtask = asyncio.create_task(circuit.run_forever())
+            simtask = asyncio.create_task(sim_wrapper())
             start_waiter()
             await asyncio.sleep(0)      # the simulation task has started its blocks and yields
             if cause['time'] == 0 and not cause.get('before'):
@@ -587,9 +701,9 @@ def run_once(scn, pad=0):
             signal.signal(signal.SIGTERM, signal.SIG_IGN)   # what run() restores afterwards
             if scn.get('wait_init') and scn.get('waiter') == 'support':
                 # the caller of wait_init() is a supporting coroutine: run() cancels it when the first task ends
-                runtask = asyncio.create_task(edzed.run(support(), putter(as_support=True)))
+                runtask = asyncio.create_task(run_wrapper(*support_coros(support(), putter(as_support=True))))
             else:
-                runtask = asyncio.create_task(edzed.run(support()))
+                runtask = asyncio.create_task(run_wrapper(*support_coros(support())))
             start_waiter()
             try:
                 await asyncio.wait([runtask])
@@ -666,7 +780,8 @@ ERROR_KINDS = ('abort', 'ctrlAbort', 'handlerErr', 'innerAbort')
 def task_label(t, rec):
     name = t.get_name()
     for prefix, lab in (("edzed: init_async for block ", 'init'), ("edzed: main task for block ", 'main'),
-                        ("edzed: control task for block ", 'ctrl'), ("edzed: stop_async for block ", 'stopa')):
+                        ("edzed: control task for block ", 'ctrl'), ("edzed: stop_async for block ", 'stopa'),
+                        ("edzed: supporting task #", 'support')):
         if name.startswith(prefix):
             bn = name[len(prefix):].strip("'")
             return f'{lab}:{rec.idx.get(bn, bn)}'
@@ -690,7 +805,7 @@ def handle_label(h, rec):
 # ------------------------------------------------------------------ run_impl
 
 def order_sensitive(scn):
-    """an output block whose stop_data event goes to a timer of the same (synchronous) set"""
+    """an output block whose stop_data event goes to a timer or to another output block of the same (synchronous) set"""
     return any(b['kind'] == 'outf' and 't' in b.get('flags', '') and b.get('ons') is not None
                for b in scn['blocks'])
 
@@ -702,12 +817,17 @@ def waiter_token(scn):
     return {'task': 't', 'support': 's'}.get(w) or f"c{scn['wcancel']}"
 
 
+def second_token(scn):
+    sec = scn['cause'].get('second')
+    return f"{sec['kind']}:{sec['dt']}" if sec else '-'
+
+
 def encode_run(scn, r):
     cause = scn['cause']
     lines = [f"lifecycle reset {cause['kind']} {int(bool(cause.get('before')))} {cause['time']} "
              f"{int(bool(cause.get('late')))} {int(bool(scn.get('wait_init')))} "
              f"{int(bool(cause.get('raise_after')))} {scn.get('sfault') or 'n'} "
-             f"{cause['target'] if cause.get('target') is not None else '-'} {waiter_token(scn)}"]
+             f"{cause['target'] if cause.get('target') is not None else '-'} {waiter_token(scn)} {second_token(scn)}"]
     trace = ['ok']
     for i, b in enumerate(scn['blocks']):
         lines.append(blk_line(b))
@@ -782,10 +902,22 @@ def run_impl(scn):
             tags.append('late-request-during-cleanup')
         tags.append('left=' + ('none' if not r['left'] else 'some'))
     started = any(kind == 'started' for kind, *_ in runs[0]['log'])
-    faults = sorted(set(''.join(b.get('flags', '') for b in scn['blocks'])) & set('SRAGVCHPQ'))
+    faults = sorted(set(''.join(b.get('flags', '') for b in scn['blocks'])) & set('SRAGVCHPQLK'))
     tags.append('faults=' + (''.join(faults) or '-'))
     tags.append('storage-fault=' + (scn.get('sfault') or '-'))
     tags.append('waiter=' + (waiter_token(scn)[0]))
+    sec = cause.get('second')
+    if sec:
+        during = any(r['notes'].get('second_during_cleanup') for r in runs)
+        tags.append(f"second={sec['kind']}{'+awaited-shutdown' if cause.get('awaited') else ''}"
+                    f"{'' if during else ' (after the clean-up)'}")
+    if any(b['kind'] == 'outf' and b.get('ons') is not None and scn['blocks'][b['ons']]['kind'] == 'outf'
+           for b in scn['blocks']):
+        tags.append('outf-chain')
+    if any(b.get('ck') or b.get('icd') for b in scn['blocks']):
+        tags.append('slow-cancellation')
+    if scn.get('sups'):
+        tags.append('slow-supporting-coroutines')
     for r in runs[:1]:
         pr = r['notes'].get('probe')
         if pr:
@@ -797,9 +929,12 @@ def run_impl(scn):
 # ------------------------------------------------------------------ oracle (from the property text)
 
 PRIORITY = ['stop_exactly_started', 'cleanup_error_isolated', 'async_before_sync', 'stop_async_awaited_bounded',
-            'simulation_finished', 'raises_recorded_error', 'wait_init_helper_outlives_call', 'no_restart_no_modify', 'no_live_task_at_end', 'no_pending_timer',
+            'simulation_finished', 'raises_recorded_error', 'wait_init_helper_outlives_call', 'no_restart_no_modify',
+            'no_live_task_when_finished', 'no_live_task_at_end', 'no_pending_timer',
             'no_live_init_task', 'stop_data_last', 'event_shutdown_documented', 'no_live_helper_task']
-KNOWN_SHAPES = ('outputasync_not_initialized',)
+KNOWN_SHAPES = ('outputasync_not_initialized', 'stop_async_own_cancellederror', 'main_task_of_late_start_fault',
+                'main_task_stop_timeout_zero',
+                'outputfunc_event_after_stop')
 
 
 def oracle(scn, res):
@@ -826,7 +961,14 @@ def oracle_run(scn, r):
     started = [k for kind, k, _x, _t in log if kind == 'started']
     stops = [k for kind, k, _x, _t in log if kind == 'stop']
     faults = ''.join(b.get('flags', '') for b in scn['blocks'])
-    cleanup_faults = 'P' in faults or 'Q' in faults
+    cleanup_faults = 'P' in faults or 'Q' in faults or 'K' in faults
+    # known finding: a stop_async that ends with a CancelledError of its own is taken for a cancellation of the simulator
+    own_cancel = [k for k, b in enumerate(scn['blocks']) if 'K' in b.get('flags', '') and is_async_stop(b)
+                  and k in started and ('sae', k, 'cancelled') in [(kind, kk, x) for kind, kk, x, _t in log]]
+    sync_started = {k for k in started if not (0 <= k < len(scn['blocks']) and is_async_stop(scn['blocks'][k]))}
+
+    def own_cancel_shape(ok):
+        return {'shape': 'stop_async_own_cancellederror' if own_cancel and ok else 'other'}
     probe = r['notes'].get('probe')
     if probe and probe['after']:
         out.append({'clause': 'wait_init_helper_outlives_call',
@@ -835,14 +977,18 @@ def oracle_run(scn, r):
                             'wait_init() created is still pending after the call has ended'})
     if not r.get('raised_recorded', True):
         out.append({'clause': 'raises_recorded_error',
-                    'what': f"run_forever() raised {r['run_error']}, the recorded error is {r.get('error')}"})
+                    'what': f"run_forever() raised {r['run_error']}, the recorded error is {r.get('error')}",
+                    'sig': own_cancel_shape(r['run_error'] == 'CancelledError')})
     if len(set(started)) != len(started):
         out.append({'clause': 'stop_exactly_started', 'what': f'a block was started twice: {started}'})
     if sorted(stops) != sorted(started):
         clause = 'cleanup_error_isolated' if cleanup_faults and set(stops) < set(started) else 'stop_exactly_started'
+        missing = set(started) - set(stops)
         out.append({'clause': clause,
                     'what': f'stop() calls {sorted(map(nm, stops))} != blocks whose start() returned '
-                            f'{sorted(map(nm, started))}'})
+                            f'{sorted(map(nm, started))}',
+                    'sig': own_cancel_shape(clause == 'cleanup_error_isolated' and missing <= sync_started
+                                            and len(stops) == len(set(stops)))})
     if r['notes'].get('event_shutdown_missing'):
         out.append({'clause': 'event_shutdown_documented',
                     'what': 'Event.shutdown() (docs/events.rst, docs/sblocks1.rst) does not exist'})
@@ -866,12 +1012,39 @@ def oracle_run(scn, r):
         kinds = [s[0] for s in seq]
         if kinds != ['stop', 'sab', 'sae']:
             out.append({'clause': 'stop_async_awaited_bounded',
-                        'what': f'{nm(k)}: expected stop, stop_async begin, stop_async end; got {kinds}'})
+                        'what': f'{nm(k)}: expected stop, stop_async begin, stop_async end; got {kinds}',
+                        'sig': {'shape': 'other'}})
+            continue
+        b = scn['blocks'][k]
+        own_len = (b.get('cdur', 0) if b['kind'] == 'async' else 0) + b.get('sdur', 0)
+        if (seq[2][1] == 'cancelled' and b['kind'] in ('async', 'aplain') and seq[2][2] - t_clean < b.get('sto', 0)
+                and ('K' not in b.get('flags', '') or seq[2][2] - t_clean < own_len)):
+            # cancelled although its stop_timeout had not expired: it was not awaited
+            out.append({'clause': 'stop_async_awaited_bounded',
+                        'what': f'{nm(k)}: stop_async was cancelled {seq[2][2] - t_clean} ms after the clean-up began, '
+                                f"its stop_timeout is {b.get('sto')} ms",
+                        'sig': own_cancel_shape(True)})
+            continue
+        if (b['kind'] == 'outa' and 't' in b.get('flags', '')
+                and any(kind == 'out' and kk == k and x for kind, kk, x, _t in log)
+                and seq[2][2] - t_clean < min(b.get('sdur', 0), b.get('sto', 0))):
+            # the output coroutine working on the stop_data was cancelled before its stop_timeout
+            out.append({'clause': 'stop_async_awaited_bounded',
+                        'what': f'{nm(k)}: stop_async ended {seq[2][2] - t_clean} ms after the clean-up began although the '
+                                f"output coroutine needs {b.get('sdur')} ms and stop_timeout is {b.get('sto')} ms",
+                        'sig': own_cancel_shape(True)})
             continue
         if seq[2][2] - t_clean > max_to:
             out.append({'clause': 'stop_async_awaited_bounded',
                         'what': f'{nm(k)}: stop_async ended {seq[2][2] - t_clean} ms after the clean-up began, '
                                 f'longest stop_timeout is {max_to} ms'})
+    for kind, k, _x, t in log:
+        if kind == 'main-cancelled-twice' and t_clean is not None and t - t_clean < scn['blocks'][k].get('sto', 0):
+            # the stop_async that was awaiting the cancelled main task was itself cancelled before its stop_timeout
+            out.append({'clause': 'stop_async_awaited_bounded',
+                        'what': f'{nm(k)}: stop_async was cancelled {t - t_clean} ms after the clean-up began while it awaited '
+                                f"its main task; stop_timeout is {scn['blocks'][k].get('sto')} ms",
+                        'sig': own_cancel_shape(True)})
     if t_clean is not None and r['end_ms'] - t_clean > max_to:
         out.append({'clause': 'stop_async_awaited_bounded',
                     'what': f'clean-up took {r["end_ms"] - t_clean} ms, longest stop_timeout is {max_to} ms'})
@@ -881,12 +1054,41 @@ def oracle_run(scn, r):
             outs = [x for kind, kk, x, _t in log if kind == 'out' and kk == k]
             if not outs or not outs[-1] or sum(1 for x in outs if x) != 1:
                 uninit = b['kind'] == 'outa' and not outs and r['outputs'].get(nm(k)) == 'UNDEF'
+                # known finding: the on_success event of ANOTHER OutputFunc's stop_data arrives after this block's stop()
+                senders = [j for j, bb in enumerate(scn['blocks']) if bb['kind'] == 'outf' and bb.get('ons') == k
+                           and 't' in bb.get('flags', '') and j in started]
+                pos_stop = {kk: i for i, (kind, kk, _x, _t) in enumerate(log) if kind == 'stop'}
+                late = (b['kind'] == 'outf' and outs and sum(1 for x in outs if x) == 1 and outs[-1] is False
+                        and len(outs) - 1 - outs.index(True) <= sum(1 for j in senders if pos_stop.get(j, -1) > pos_stop.get(k, -1))
+                        and any(pos_stop.get(j, -1) > pos_stop.get(k, -1) for j in senders))
+                shape = 'outputasync_not_initialized' if uninit else ('outputfunc_event_after_stop' if late else 'initialized')
                 out.append({'clause': 'stop_data_last',
                             'what': f'{nm(k)}: calls of the output function (True = stop_data): {outs}'
-                                    + (' (the block was never initialised)' if uninit else ''),
-                            'sig': {'shape': 'outputasync_not_initialized' if uninit else 'initialized'}})
+                                    + (' (the block was never initialised)' if uninit else '')
+                                    + (f' (stopped before {[nm(j) for j in senders]}, whose stop_data result is sent to it)' if late else ''),
+                            'sig': {'shape': shape}})
+    # nothing is pending at the moment run() returns / the simulation task finishes
+    now_left = r.get('left_now') or []
+    if now_left:
+        late_start = [k for k, b in enumerate(scn['blocks']) if 'L' in b.get('flags', '') and b['kind'] == 'async'
+                      and k not in started and ('start', k) in [(kind, kk) for kind, kk, _x, _t in log]]
+        f6 = bool(late_start) and f'main:{late_start[0]}' in now_left
+        # known finding: the asynchronous clean-up of a main-task block is disabled (stop_timeout 0): nobody cancels the task
+        sto0 = {f'main:{k}' for k, b in enumerate(scn['blocks']) if b['kind'] == 'async' and b.get('sto') == 0 and k in started}
+        f7 = bool(sto0) and bool(set(now_left) & sto0)
+        if not set(now_left) <= sto0 | ({f'main:{late_start[0]}'} if late_start else set()):
+            f6 = f7 = False     # something else is pending as well
+        out.append({'clause': 'no_live_task_when_finished',
+                    'what': f"pending at the moment {'run() returned' if scn.get('runner') == 'run' else 'the simulation task finished'}: {now_left}"
+                            + (' -- the main task of a block whose start() raised after AddonMainTask.start()' if f6 else '')
+                            + (' -- main task of a block with stop_timeout=0 (asynchronous clean-up disabled)' if f7 else ''),
+                    'sig': {'tasks': sorted({x.split(':')[0] for x in now_left}),
+                            'shape': 'main_task_of_late_start_fault' if f6 else
+                                     ('main_task_stop_timeout_zero' if f7 else 'other')}})
     # nothing outlives the simulation
     tasks = [x for x in r['left'] if not x.startswith(('timer:', 'handle:'))]
+    if now_left:
+        tasks = [x for x in tasks if x not in now_left]     # reported above
     handles = [x for x in r['left'] if x.startswith(('timer:', 'handle:'))]
     for clause, sel in (('no_live_init_task', [x for x in tasks if x.startswith('init:')]),
                         ('no_live_helper_task', [x for x in tasks if x == 'helper']),
@@ -907,6 +1109,20 @@ def oracle_run(scn, r):
     if r['restart'] != 'InvalidState' or r['modify'] != 'InvalidState':
         out.append({'clause': 'no_restart_no_modify',
                     'what': f"run_forever() again -> {r['restart']}, new block -> {r['modify']}"})
+    own = [v for v in out if (v.get('sig') or {}).get('shape') == 'stop_async_own_cancellederror']
+    if own:
+        # the clean-up was cut short by the known finding: what else is wrong in this run (blocks not stopped ->
+        # their timers, stop_data, stop_async tasks) is its consequence
+        return own
+    if own_cancel:
+        # a stop_async of this run did end with its own CancelledError: `_run_tasks("stop")` was left there; which
+        # of the other stop_async tasks were cancelled, awaited or left behind depends on the order of the set
+        consequence = ('stop_async_awaited_bounded', 'no_live_task_when_finished', 'no_live_task_at_end',
+                       'no_pending_timer', 'stop_data_last', 'cleanup_error_isolated')
+        for v in out:
+            if v['clause'] in consequence and not (v['clause'] == 'cleanup_error_isolated'
+                                                   and not set(started) - set(stops) <= sync_started):
+                v['sig'] = {**(v.get('sig') or {}), 'shape': 'stop_async_own_cancellederror'}
     return out
 
 
@@ -918,9 +1134,14 @@ def mk(kind, flags='', **kw):
     return b
 
 
-def finish(blocks, cause, rng=None, runner=None, wait_init=None, sfault=None, waiter=None, wcancel=None):
+def finish(blocks, cause, rng=None, runner=None, wait_init=None, sfault=None, waiter=None, wcancel=None, sups=None):
     """fill in distinct durations, the trigger/control blocks and the wait_init flag"""
     blocks = [dict(b) for b in blocks]
+    for b in blocks:
+        if b.get('icd') and not b.get('idur', 0) < b.get('ito', 0):
+            b['icd'] = 0        # a slow cancellation only where init_async does not run into its time-out
+        if b['kind'] == 'async' and b.get('sto') == 0 and b.get('mf') is not None:
+            b['mf'] = None      # a main task that nobody cancels does not end by itself either
     for i, b in enumerate(blocks):
         if b['kind'] == 'async':
             b.setdefault('idur', 10 * (i + 1))
@@ -947,6 +1168,8 @@ def finish(blocks, cause, rng=None, runner=None, wait_init=None, sfault=None, wa
             blocks.insert(pos, mk('trig'))
         blocks.append(mk('ctrl'))
     scn = {'blocks': blocks, 'cause': dict(cause)}
+    if sups:
+        scn['sups'] = sups
     if runner is None:
         runner = 'run' if cause['kind'] in ('supportEnd', 'supportFail', 'sigterm') else 'task'
     scn['runner'] = runner
@@ -959,6 +1182,20 @@ def finish(blocks, cause, rng=None, runner=None, wait_init=None, sfault=None, wa
         elif waiter == 'cancel' and not has_outf:
             scn['waiter'] = 'cancel'
             scn['wcancel'] = wcancel
+    sec = scn['cause'].get('second')
+    if sec:
+        ck, run = scn['cause']['kind'], scn['runner'] == 'run'
+        ok = (not scn['cause'].get('before') and scn['cause']['time'] > 0
+              and (sec['kind'] != 'callerCancel' or (ck == 'shutdown' and not run))
+              and (sec['kind'] not in ('supportEnd', 'supportFail', 'sigterm') or run)
+              and not (sec['kind'] in ('ctrlShutdown', 'ctrlAbort', 'handlerErr', 'innerShutdown', 'innerAbort')))
+        if not ok:
+            del scn['cause']['second']
+    if scn['cause'].get('awaited') and not (scn['cause']['kind'] == 'shutdown' and scn['runner'] == 'run'
+                                            and scn['cause'].get('second')):
+        del scn['cause']['awaited']
+    if scn.get('sups') and scn['runner'] != 'run':
+        del scn['sups']
     if sfault and (any(f in b.get('flags', '') for b in blocks for f in 'rp')
                    or any(b['kind'] == 'rtimer' for b in blocks)):
         scn['sfault'] = sfault      # only with a storage, i.e. with a persistent block
@@ -1106,6 +1343,62 @@ def defect_scenarios():
     yield finish([mk('outf', 't', ons=2), mk('sync', 'sS'), mk('timer')], {'kind': 'shutdown', 'time': 205})
 
 
+def new_dimension_scenarios():
+    """slow cancellations, second termination causes during the clean-up, own CancelledError, OutputFunc chains,
+    late start() faults, slow supporting coroutines"""
+    # (a) init_async tasks that need further loop iterations / time once cancelled; termination during the async init
+    for ck, icd in ((1, 0), (2, 0), (5, 0), (0, 2), (3, 1)):
+        for kind, run in (('shutdown', None), ('abort', None), ('abort', 'run'), ('sigterm', 'run'), ('supportEnd', 'run')):
+            yield finish([mk('ainit', 'a', idur=1000, ito=3003), mk('ainit', 'a', idur=1010, ito=2003, ck=ck, icd=icd),
+                          mk('ainit', 'a', idur=1020, ito=2013, ck=ck, icd=icd)], {'kind': kind, 'time': 55}, runner=run)
+            yield finish([mk('async', 'a', idur=140, ito=163, ck=ck, icd=icd), mk('ainit', 'a', idur=150, ito=173, ck=ck),
+                          mk('async', 'as', idur=20, ito=183, sdur=10, sto=103), mk('sync', 's')],
+                         {'kind': kind, 'time': 35}, runner=run)
+    # (b) a second termination cause during the clean-up, by every route
+    circ = [mk('aplain', 's', sdur=200, sto=1003), mk('sync', 's'), mk('async', 's', sdur=100, sto=503), mk('timer', 'm')]
+    for dt in (2, 52, 152):
+        yield finish(circ, {'kind': 'shutdown', 'time': 205, 'second': {'kind': 'callerCancel', 'dt': dt}})
+        for k2 in ('abort', 'shutdown'):
+            for k1 in ('shutdown', 'abort'):
+                yield finish(circ, {'kind': k1, 'time': 205, 'second': {'kind': k2, 'dt': dt}})
+        for k2 in ('supportEnd', 'supportFail', 'abort', 'sigterm', 'shutdown'):
+            yield finish(circ, {'kind': 'shutdown', 'time': 205, 'awaited': True, 'second': {'kind': k2, 'dt': dt}},
+                         runner='run')
+            for k1 in ('shutdown', 'abort', 'supportEnd', 'supportFail', 'sigterm'):
+                yield finish(circ, {'kind': k1, 'time': 205, 'second': {'kind': k2, 'dt': dt}}, runner='run')
+    # (c) a stop_async that ends with a CancelledError of its own
+    for order in (0, 1):
+        blocks = [mk('aplain', 'sK', sdur=20, sto=103 + 100 * order), mk('aplain', 's', sdur=50, sto=153), mk('sync', 's')]
+        for kind, run in (('shutdown', None), ('abort', None), ('supportEnd', 'run')):
+            yield finish(blocks, {'kind': kind, 'time': 205}, runner=run)
+    yield finish([mk('async', 'sK', sdur=20, sto=103)], {'kind': 'shutdown', 'time': 205})
+    yield finish([mk('async', 'sK', sdur=20, sto=103)], {'kind': 'abort', 'time': 205})
+    # (d) OutputFunc -> OutputFunc, stop_data on both (run_impl repeats the run until both stop orders were seen)
+    for kind, run in (('shutdown', None), ('abort', None), ('supportEnd', 'run')):
+        yield finish([mk('outf', 't'), mk('outf', 't', ons=0)], {'kind': kind, 'time': 205}, runner=run)
+        yield finish([mk('outf', 't', ons=1), mk('outf', 't'), mk('sync', 's')], {'kind': kind, 'time': 205}, runner=run)
+        yield finish([mk('outf', '', ons=1), mk('outf', 't'), mk('outf', 't', ons=1)], {'kind': kind, 'time': 205}, runner=run)
+    # (e) start() faults before (S) and after (L) super().start(), for blocks with AddonMainTask / AddonAsync
+    for f in 'SL':
+        for kind in ('async', 'ainit', 'aplain', 'sync'):
+            for pos in (0, 1, 2):
+                blocks = [mk('sync', 's'), mk('async', 's')]
+                blocks.insert(pos, mk(kind, 's' + f + ('a' if kind == 'ainit' else '')))
+                yield finish(blocks, {'kind': 'shutdown', 'time': 205})
+                yield finish(blocks, {'kind': 'supportEnd', 'time': 205}, runner='run')
+    # main-task block whose asynchronous clean-up is disabled by stop_timeout=0
+    for kind, run in (('shutdown', None), ('abort', None), ('supportEnd', 'run'), ('sigterm', 'run')):
+        yield finish([mk('async', 's', sto=0), mk('sync', 's'), mk('async', 's')], {'kind': kind, 'time': 205}, runner=run)
+        yield finish([mk('async', 's', sto=0)], {'kind': kind, 'time': 205}, runner=run)
+    # (g) supporting coroutines that need further loop iterations once cancelled, before and after the one that ends/fails
+    for k1 in ('supportEnd', 'supportFail', 'abort', 'shutdown', 'sigterm'):
+        for ck in (1, 3, 6):
+            yield finish(base_circuit(), {'kind': k1, 'time': 205}, runner='run',
+                         sups=[{'ck': ck, 'pos': 'before'}, {'ck': ck + 1, 'pos': 'after'}])
+            yield finish([mk('sync', 'sH')], {'kind': 'handlerErr', 'time': 805, 'target': 0}, runner='run',
+                         sups=[{'ck': ck, 'pos': 'before'}, {'ck': ck, 'pos': 'after'}])
+
+
 def random_scenario(rng):
     n = rng.randint(1, 5)
     blocks = []
@@ -1144,6 +1437,8 @@ def random_scenario(rng):
                 b['sdur'] = 0
                 b['cdur'] = rng.choice([0, 2, 4])
             b['sto'] = rng.choice([33, 53, 83, 123, 253])
+            if rng.random() < 0.05:
+                b['sto'] = 0        # asynchronous clean-up disabled (docs: "Value 0.0 or negative disables the async cleanup")
             if rng.random() < 0.15:
                 b['mf'] = mf_pool.pop(rng.randrange(len(mf_pool)))     # pairwise distinct
                 b['mret'] = rng.random() < 0.4
@@ -1169,6 +1464,14 @@ def random_scenario(rng):
             fl += rng.choice(['m', 'm', 'f', ''])
         if kind in ('outf', 'outa') and rng.random() < 0.75:
             fl += 't'
+        if kind in ('async', 'aplain') and rng.random() < 0.06:
+            fl += 'K'
+        if kind in ('async', 'ainit', 'aplain') and rng.random() < 0.3:
+            b['ck'] = rng.choice([1, 2, 3, 5])
+        if kind in ('async', 'ainit') and rng.random() < 0.2:
+            b['icd'] = rng.choice([1, 2])
+        if kind in ('async', 'ainit', 'aplain', 'sync') and rng.random() < 0.05:
+            fl += 'L'
         if kind == 'outa':
             b['sdur'] = 10 * (i + 1) + 100 * rng.randrange(0, 2)
             b['sto'] = rng.choice([33, 53, 83, 123, 253])
@@ -1178,14 +1481,34 @@ def random_scenario(rng):
             fl += 'P'
         b['flags'] = fl
         blocks.append(b)
+    if sum(1 for b in blocks if is_async_stop(b) or b['kind'] == 'outa') > 1:
+        # random circuits: a stop_async with its own CancelledError (known finding) only where it is the only
+        # asynchronous clean-up -- which of the OTHER stop_async tasks get cancelled depends on the order of the set
+        # (the fixed scenarios of new_dimension_scenarios cover two of them, both time-out orders)
+        for b in blocks:
+            b['flags'] = b['flags'].replace('K', '')
     timers = [i for i, b in enumerate(blocks) if b['kind'] == 'timer']
-    for b in blocks:
-        if b['kind'] == 'outf' and timers and rng.random() < 0.7:
+    outfs = [i for i, b in enumerate(blocks) if b['kind'] == 'outf']
+    chain_targets = set()
+    for i, b in enumerate(blocks):
+        if b['kind'] == 'outf' and len(outfs) > 1 and i not in chain_targets and rng.random() < 0.4:
+            # OutputFunc -> OutputFunc; the target has no on_success of its own
+            tgt = rng.choice([j for j in outfs if j != i])
+            if blocks[tgt].get('ons') is None:
+                b['ons'] = tgt
+                chain_targets.add(tgt)
+                continue
+        if b['kind'] == 'outf' and i not in chain_targets and timers and rng.random() < 0.7:
             b['ons'] = rng.choice(timers)
     runner = rng.choice(['task', 'task', 'run'])
     ck = rng.choice(CAUSES_TASK if runner == 'task' else CAUSES_RUN)
     t = rng.choice([0, 5, 15, 25, 45, 65, 105, 155, 205, 305, 605])
     cause = {'kind': ck, 'time': t, 'late': rng.random() < 0.25}
+    if rng.random() < 0.3:
+        cause['second'] = {'kind': rng.choice(['callerCancel', 'callerCancel', 'supportEnd', 'supportFail', 'abort',
+                                               'sigterm', 'shutdown']),
+                           'dt': rng.choice([2, 12, 22, 52, 112])}
+        cause['awaited'] = rng.random() < 0.5
     if ck == 'handlerErr':
         tgt = [i for i, b in enumerate(blocks) if 'H' in b['flags']]
         if not tgt:
@@ -1206,11 +1529,15 @@ def random_scenario(rng):
     return finish(blocks, cause, rng=rng, runner=runner, wait_init=rng.random() < 0.55,
                   sfault=rng.choice([None, None, None, 'w', 'p']),
                   waiter=rng.choice([None, 'support', 'support', 'cancel', 'cancel']),
-                  wcancel=rng.choice([9, 19, 29, 49, 69, 109, 159, 209, 409, 609, 809]))
+                  wcancel=rng.choice([9, 19, 29, 49, 69, 109, 159, 209, 409, 609, 809]),
+                  sups=(None if rng.random() < 0.7 else
+                        [{'ck': rng.choice([1, 2, 4, 7]), 'pos': rng.choice(['before', 'after'])}
+                         for _ in range(rng.randint(1, 3))]))
 
 
 def scenarios(rng, tier):
     yield from defect_scenarios()
+    yield from new_dimension_scenarios()
     yield from main_fault_grid()
     yield from grid(tier)
     for _ in range(6000 if tier == 'quick' else 400000):
@@ -1241,7 +1568,7 @@ def shrink(scn):
         yield {**scn, 'blocks': nb, 'cause': cause}
     for i, b in enumerate(blocks):
         for f in b.get('flags', ''):
-            if f in 'SRAGVCPQ':
+            if f in 'SRAGVCPQLK':
                 nb = [dict(x) for x in blocks]
                 nb[i]['flags'] = b['flags'].replace(f, '')
                 yield {**scn, 'blocks': nb}
@@ -1251,6 +1578,16 @@ def shrink(scn):
             yield {**scn, 'blocks': nb}
     if scn['cause'].get('late'):
         yield {**scn, 'cause': {**scn['cause'], 'late': False}}
+    if scn['cause'].get('second'):
+        yield {**scn, 'cause': {k: v for k, v in scn['cause'].items() if k not in ('second', 'awaited')}}
+    if scn.get('sups'):
+        yield {k: v for k, v in scn.items() if k != 'sups'}
+    for i, b in enumerate(blocks):
+        for key in ('ck', 'icd'):
+            if b.get(key):
+                nb = [dict(x) for x in blocks]
+                nb[i][key] = 0
+                yield {**scn, 'blocks': nb}
     if scn.get('sfault'):
         yield {k: v for k, v in scn.items() if k != 'sfault'}
     if scn.get('wait_init') and not any(b['kind'] == 'outf' for b in blocks):
